@@ -131,28 +131,70 @@ Print Assumptions C05_session_invariant.
 
 (* every exit of a handler that owns the session clears it: done, error, stop, background *)
 Theorem C05_every_exit_clears :
-  forall dstate zstate (s : state dstate zstate) i a, inv dstate zstate s ->
+  forall dstate zstate o (s : state dstate zstate) i a, inv dstate zstate s ->
   nth_error (handlers s) i = Some HOwning ->
   (a = HDone \/ a = HError \/ a = HStop \/ a = HBackground) ->
-  transfer (fst (handler_step dstate zstate s i a)) = false /\
-  handlers (fst (handler_step dstate zstate s i a)) = remove_nth i (handlers s).
+  transfer (fst (handler_step dstate zstate o s i a)) = false /\
+  handlers (fst (handler_step dstate zstate o s i a)) = remove_nth i (handlers s).
 Proof. exact every_exit_clears. Qed.
 Print Assumptions C05_every_exit_clears.
 
 (* refused by the user / failed before the session was taken: the session pointer is untouched *)
 Theorem C05_early_exit_keeps :
-  forall dstate zstate (s : state dstate zstate) i a,
+  forall dstate zstate o (s : state dstate zstate) i a,
   nth_error (handlers s) i = Some HChoosing -> (a = HRefuse \/ a = HFailEarly) ->
-  transfer (fst (handler_step dstate zstate s i a)) = transfer s /\
-  handlers (fst (handler_step dstate zstate s i a)) = remove_nth i (handlers s).
+  transfer (fst (handler_step dstate zstate o s i a)) = transfer s /\
+  handlers (fst (handler_step dstate zstate o s i a)) = remove_nth i (handlers s).
 Proof. exact early_exit_keeps. Qed.
 Print Assumptions C05_early_exit_keeps.
 
+(* along every run of the FIXED code (o_fixed = true: every return of handleTrzsz closes a stop
+   prompt that is still open - fix 0263b73, pinned by C05_skel) a stop prompt is waiting for a
+   key only while a transfer owns the streams *)
+Theorem C05_prompt_invariant :
+  forall dstate trigger detect trig_prompts zmodem_detect zstate zm_init zm_handle zm_busy zm_stop
+         drag_detect msg_on msg_off is_stop_key o,
+  o_fixed o = true ->
+  forall es (s : state dstate zstate),
+  pinv dstate zstate s ->
+  pinv dstate zstate
+    (fst (run dstate trigger detect trig_prompts zmodem_detect zstate zm_init zm_handle zm_busy zm_stop
+              drag_detect msg_on msg_off is_stop_key o s es)).
+Proof. exact run_pinv. Qed.
+Print Assumptions C05_prompt_invariant.
+
 (* induction over histories: after ANY history es1 (any number of sessions, ended in any way,
-   interleaved in any way) that has come to rest - no handler, drag or prompt goroutine alive,
-   no zmodem session, nothing held back, no pending echo suppression - the wrapper is idle, and
-   the transparency theorem holds for everything that follows *)
+   interleaved in any way) that has come to rest - no handler or drag goroutine alive, no zmodem
+   session, nothing held back, no pending echo suppression; NOTHING is assumed about the stop
+   prompt - no prompt is waiting for a key; at most its goroutine still has to store nil after its
+   pipe was closed, which needs no key (EvPromptEnd); after that the wrapper is idle and the
+   transparency theorem holds for everything that follows *)
 Theorem C05_after_session :
+  forall dstate trigger detect trig_prompts zmodem_detect zstate zm_init zm_handle zm_busy zm_stop
+         drag_detect msg_on msg_off is_stop_key o,
+  (forall d c c' d', detect d c = ((c', None), d') -> c' = c) ->
+  o_fixed o = true ->
+  forall es1 es2 (s0 s1 s2 : state dstate zstate) ob1 ob2,
+  idle s0 = true ->
+  run dstate trigger detect trig_prompts zmodem_detect zstate zm_init zm_handle zm_busy zm_stop
+      drag_detect msg_on msg_off is_stop_key o s0 es1 = (s1, ob1) ->
+  handlers s1 = [] -> drag_procs s1 = [] -> held s1 = None -> zmodem s1 = None -> skip_cmd s1 = false ->
+  let s1' := fst (step dstate trigger detect trig_prompts zmodem_detect zstate zm_init zm_handle zm_busy zm_stop
+                       drag_detect msg_on msg_off is_stop_key o s1 EvPromptEnd) in
+  all_quiet dstate trigger detect trig_prompts zmodem_detect zstate zm_init zm_handle zm_busy zm_stop
+            drag_detect msg_on msg_off is_stop_key o s1' es2 = true ->
+  run dstate trigger detect trig_prompts zmodem_detect zstate zm_init zm_handle zm_busy zm_stop
+      drag_detect msg_on msg_off is_stop_key o s1' es2 = (s2, ob2) ->
+  prompt s1 <> POpen /\
+  idle s1' = true /\
+  term_writes ob2 = out_chunks zstate es2 /\
+  concat (server_writes ob2) ++ held_bytes s2 = concat (in_chunks zstate es2) /\
+  calm dstate zstate s2.
+Proof. exact after_session. Qed.
+Print Assumptions C05_after_session.
+
+(* valid for both code versions: the same with "the prompt is closed" as part of the premise *)
+Theorem C05_after_session_prompt_closed :
   forall dstate trigger detect trig_prompts zmodem_detect zstate zm_init zm_handle zm_busy zm_stop
          drag_detect msg_on msg_off is_stop_key o,
   (forall d c c' d', detect d c = ((c', None), d') -> c' = c) ->
@@ -160,7 +202,7 @@ Theorem C05_after_session :
   idle s0 = true ->
   run dstate trigger detect trig_prompts zmodem_detect zstate zm_init zm_handle zm_busy zm_stop
       drag_detect msg_on msg_off is_stop_key o s0 es1 = (s1, ob1) ->
-  handlers s1 = [] -> drag_procs s1 = [] -> held s1 = None -> prompt s1 = false -> zmodem s1 = None ->
+  handlers s1 = [] -> drag_procs s1 = [] -> held s1 = None -> prompt s1 = PNone -> zmodem s1 = None ->
   skip_cmd s1 = false ->
   all_quiet dstate trigger detect trig_prompts zmodem_detect zstate zm_init zm_handle zm_busy zm_stop
             drag_detect msg_on msg_off is_stop_key o s1 es2 = true ->
@@ -170,8 +212,8 @@ Theorem C05_after_session :
   term_writes ob2 = out_chunks zstate es2 /\
   concat (server_writes ob2) ++ held_bytes s2 = concat (in_chunks zstate es2) /\
   calm dstate zstate s2.
-Proof. exact after_session. Qed.
-Print Assumptions C05_after_session.
+Proof. exact after_session_prompt_closed. Qed.
+Print Assumptions C05_after_session_prompt_closed.
 
 (* the echo-suppression flag left behind by a drag upload: the next output chunk clears it and
    is forwarded unless it IS the echo of the upload command *)
@@ -200,7 +242,7 @@ Print Assumptions C05_skel.
 
 (* ---- non-vacuity: concrete states and chunks meeting the hypotheses (silent detectors) ---- *)
 Definition ex_opts : opts :=
-  {| o_drag := true; o_trace := true; o_zmodem := true; o_osc52 := true; o_cmd := []; o_cmd_not_trz := false |}.
+  {| o_drag := true; o_trace := true; o_zmodem := true; o_osc52 := true; o_cmd := []; o_cmd_not_trz := false; o_fixed := true |}.
 
 (* a truncated trigger, a zmodem-like header with 5 hex digits, an OSC52 sequence cut in two,
    a truncated trace marker: all forwarded unchanged; the clipboard gets "QUJD" once *)
@@ -231,45 +273,62 @@ Example C05_drag_exception :
   = [ToServer [3]; ToServer [116;114;122;32;45;100;13]; ToTerm [13;10]; ToTerm [36]; ToServer [120]].
 Proof. vm_compute. reflexivity. Qed.
 
-(* ---- the premise "prompt s1 = false" of C05_after_session cannot be dropped: a session that
+(* ---- the code BEFORE fix 0263b73 (o_fixed = false): C05_after_session fails.  A session that
         ends by itself while the stop prompt is open leaves the prompt in charge of the keyboard.
-        Witness: trigger, handler takes the session, ctrl-C (prompt opens), the transfer fails,
-        then a key is typed: every handler has ended, no session, yet nothing reaches the
-        server.  Reproduced on the real filter by the history "stop-prompt-open-server-fails"
-        (KNOWN_FINDINGS.txt). ---- *)
-Definition C05_after_session_without_prompt_premise : Prop :=
+        Witness: trigger, handler takes the session, ctrl-C (prompt opens), the transfer fails:
+        every handler has ended, no session, the prompt is still waiting for a key, and a typed
+        key does not reach the server.  This was reproduced on the real filter by the history
+        "stop-prompt-open-server-fails" (KNOWN_FINDINGS.txt, now "fixed:"). ---- *)
+Definition C05_after_session_unfixed : Prop :=
   forall dstate trigger detect trig_prompts zmodem_detect zstate zm_init zm_handle zm_busy zm_stop
          drag_detect msg_on msg_off is_stop_key o,
   (forall d c c' d', detect d c = ((c', None), d') -> c' = c) ->
+  o_fixed o = false ->
   forall es1 (s0 s1 : state dstate zstate) ob1,
   idle s0 = true ->
   run dstate trigger detect trig_prompts zmodem_detect zstate zm_init zm_handle zm_busy zm_stop
       drag_detect msg_on msg_off is_stop_key o s0 es1 = (s1, ob1) ->
   handlers s1 = [] -> drag_procs s1 = [] -> held s1 = None -> zmodem s1 = None -> skip_cmd s1 = false ->
-  idle s1 = true.
+  prompt s1 <> POpen.
+
+Definition ex_opts_unfixed : opts :=
+  {| o_drag := true; o_trace := true; o_zmodem := true; o_osc52 := true; o_cmd := []; o_cmd_not_trz := false; o_fixed := false |}.
 
 Definition wit_detect (d : unit) (c : list N) : (list N * option unit) * unit :=
   if list_eqb c [1] then ((c, Some tt), d) else ((c, None), d).
 
-Theorem C05_after_session_needs_prompt_closed_refuted : ~ C05_after_session_without_prompt_premise.
+Definition wit_run (o : opts) (es : list (event unit)) :=
+  run unit unit wit_detect (fun _ => true) (fun _ => false) unit (fun _ => tt) (fun z _ => (true, z))
+      (fun _ => true) (fun z => z) (fun _ => dres_none) [] [] (fun c => list_eqb c [3]) o (init unit unit tt) es.
+
+Definition wit_history : list (event unit) := [EvOut [1]; EvHandler 0 HAccept; EvIn [3]; EvHandler 0 HError].
+
+Theorem C05_after_session_unfixed_refuted : ~ C05_after_session_unfixed.
 Proof.
   intros H.
   specialize (H unit unit wit_detect (fun _ => true) (fun _ => false) unit (fun _ => tt) (fun z _ => (true, z))
-                (fun _ => true) (fun z => z) (fun _ => dres_none) [] [] (fun c => list_eqb c [3]) ex_opts).
+                (fun _ => true) (fun z => z) (fun _ => dres_none) [] [] (fun c => list_eqb c [3]) ex_opts_unfixed).
   assert (Hs : forall d c c' d', wit_detect d c = ((c', None), d') -> c' = c).
   { intros d c c' d'. unfold wit_detect. destruct (list_eqb c [1]); intros X; inversion X; reflexivity. }
-  specialize (H Hs [EvOut [1]; EvHandler 0 HAccept; EvIn [3]; EvHandler 0 HError] (init unit unit tt)).
-  match type of H with forall s1 ob1, _ -> ?r = _ -> _ => remember r as R eqn:ER end.
-  vm_compute in ER. destruct R as [s1 ob1]. specialize (H s1 ob1 eq_refl eq_refl).
+  specialize (H Hs eq_refl wit_history (init unit unit tt)).
+  remember (wit_run ex_opts_unfixed wit_history) as R eqn:ER. unfold wit_run in ER.
+  vm_compute in ER. destruct R as [s1 ob1].
+  specialize (H s1 ob1 eq_refl). rewrite ER in H. specialize (H eq_refl).
   inversion ER; subst s1 ob1; clear ER.
-  specialize (H eq_refl eq_refl eq_refl eq_refl eq_refl). vm_compute in H. discriminate H.
+  apply (H eq_refl eq_refl eq_refl eq_refl eq_refl). reflexivity.
 Qed.
-Print Assumptions C05_after_session_needs_prompt_closed_refuted.
+Print Assumptions C05_after_session_unfixed_refuted.
 
-(* and in that state typed input does not reach the server *)
-Example C05_prompt_swallows_keys :
-  server_writes (snd (run unit unit wit_detect (fun _ => true) (fun _ => false) unit (fun _ => tt) (fun z _ => (true, z))
-                          (fun _ => true) (fun z => z) (fun _ => dres_none) [] [] (fun c => list_eqb c [3]) ex_opts
-                          (init unit unit tt)
-                          [EvOut [1]; EvHandler 0 HAccept; EvIn [3]; EvHandler 0 HError; EvIn [120]])) = [].
-Proof. vm_compute. reflexivity. Qed.
+(* the same history on the two code versions: before the fix the key typed afterwards is
+   swallowed; with the fix the prompt is closing, its goroutine ends without a key, and the key
+   typed after that reaches the server *)
+Example C05_unfixed_swallows_keys :
+  server_writes (snd (wit_run ex_opts_unfixed (wit_history ++ [EvPromptEnd; EvIn [120]]))) = [[120]] /\
+  server_writes (snd (wit_run ex_opts_unfixed (wit_history ++ [EvIn [120]]))) = [] /\
+  prompt (fst (wit_run ex_opts_unfixed wit_history)) = POpen.
+Proof. vm_compute. auto. Qed.
+
+Example C05_fixed_hands_keyboard_back :
+  prompt (fst (wit_run ex_opts wit_history)) = PClosing /\
+  server_writes (snd (wit_run ex_opts (wit_history ++ [EvPromptEnd; EvIn [120]]))) = [[120]].
+Proof. vm_compute. auto. Qed.
